@@ -57,7 +57,7 @@ def _chan_params(t, cls, name, rows):
     return p
 
 
-def _gate_rates(cls, g, v, p, n6_saturated=True):
+def _gate_rates(cls, g, v, p, n6_saturated=False):
     fn = R2.CHANNELS[cls]["gates"][g]
     if cls == "CaT" and n6_saturated:
         kind, a, b = fn(v, p, saturate_at=20.0)
@@ -131,7 +131,7 @@ def _synaptic(t, st, v):
     return gm, const, cur
 
 
-def simulate(t, nsteps, dt, solver="bwd_euler", externals=None, external_inds=None, n6_saturated=True,
+def simulate(t, nsteps, dt, solver="bwd_euler", externals=None, external_inds=None, n6_saturated=False,
              state0=None):
     """Returns dict name -> array (n, nsteps+1): 'v', every channel/synaptic state (edge arrays
     are indexed by GLOBAL edge index, NaN where the edge has another type), and the currents."""
